@@ -3,23 +3,36 @@
 // Contracts for the deductive verifier in /verif (comment-only; compiled only with -tags verif).
 package v1
 
+// parameters every field of which is in range are accepted (no beacon configured)
+//@ define paramsAccept(p) = !isnil(p.TokenTaxRate) && raw(p.TokenTaxRate) >= 0 && raw(p.TokenTaxRate) <= DEC_ONE
+//@        && !isnil(p.MintTokenFeeRatio) && raw(p.MintTokenFeeRatio) >= 0 && raw(p.MintTokenFeeRatio) <= DEC_ONE
+//@        && ufb("denom_valid", p.IssueTokenBaseFee.Denom) && p.IssueTokenBaseFee.Amount >= 0 && len(p.Beacon) == 0
 //@ func Params.Validate()
-//@   property C16
+//@   property C16, C12
 //@   returns err
 //@   ensures valid: err == nil ==> paramsOK(p)
+//@   ensures @C12 accepts: paramsAccept(p) ==> err == nil
 //@ end
 
-// Genesis validation reads no state; InitGenesis relies on nothing it establishes (assumed: it has no effect).
+// Genesis validation accepts every state the keeper can hold (C12: the chain's own export must re-import): tokens whose
+// fields pass the same validators the issue handler applies are accepted whatever the relation between the symbols and
+// min units of DIFFERENT tokens (the two name spaces are separate), and burned-coin totals with a valid denomination.
+//@ define tokenAccept(t) = (len(t.Owner) == 0 || bechok(t.Owner)) && len(t.Name) > 0 && len(t.Name) <= 32 && ufb("token_symbol_ok", t.Symbol)
+//@        && ufb("token_minunit_ok", t.MinUnit) && t.InitialSupply <= 100000000000 && t.MaxSupply >= t.InitialSupply && t.Scale <= 18
 //@ func ValidateGenesis(data)
 //@   property C12
-//@   trusted
 //@   returns err
+//@   invariant #1 idx: rangeindex >= 0 - 1 && rangeindex < len(data.Tokens)
+//@   invariant #2 idx: rangeindex >= 0 - 1 && rangeindex < len(data.BurnedCoins)
+//@   ensures accepts_valid: paramsAccept(data.Params) && (forall j:Int :: 0 <= j && j < len(data.Tokens) ==> tokenAccept(data.Tokens[j]))
+//@                          && (forall j:Int :: 0 <= j && j < len(data.BurnedCoins) ==> ufb("denom_valid", data.BurnedCoins[j].Denom) && data.BurnedCoins[j].Amount >= 0) ==> err == nil
 //@ end
 
 // Token validation (issue message, genesis): the declared cap covers the initial supply and the scale is within range
 // (what IssueToken assumes of a validated message, C09)
 //@ func Token.Validate()
-//@   property C09
+//@   property C09, C12
 //@   returns err
 //@   ensures cap_covers_initial: err == nil ==> t.InitialSupply <= t.MaxSupply && t.Scale <= 18
+//@   ensures accepts: tokenAccept(t) ==> err == nil
 //@ end
